@@ -43,6 +43,7 @@ func init() {
 				{Name: "close-vs-reconnect", Variant: "race", Cases: n * 2, Run: c17closeReconnect, CaseTimeout: 40 * time.Second, Required: []string{"closes_checked"}},
 				{Name: "scenarios", Variant: "race", Cases: n, Run: c17case, CaseTimeout: 60 * time.Second,
 					Required: []string{"fill_storms", "api_mixes", "close_races", "uneven_fills", "closes_checked", "pool_samples", "control_loss_before_close"}},
+				{Name: "debouncer-stress", Variant: "race", Cases: cw, Run: c17debouncerStress, CaseTimeout: 60 * time.Second, Required: []string{"debouncer_refresh_requests", "debouncer_refreshes_run"}},
 				{Name: "refresh-storm", Variant: "race", Cases: cw, Run: c17refreshStorm, CaseTimeout: 60 * time.Second, Required: []string{"refresh_storms", "ring_refreshes_requested"}},
 			}
 		},
@@ -754,5 +755,69 @@ func c17refreshStorm(c *runner.Ctx, i int) {
 		}
 		sort.Strings(ks)
 		c.Violation("C17:goroutine-leak:"+strings.Join(ks, "+"), fmt.Sprintf("%d goroutines are still running driver code after Session.Close returned (%v)", len(leaked), tops), map[string]interface{}{"goroutines": leaked[:minInt(len(leaked), 4)]})
+	}
+}
+
+// c17debouncerStress drives the ring-refresh debouncer itself (through the hook that builds one with a chosen
+// interval and a trivial refresh function): several goroutines ask for an immediate refresh and wait for its
+// result, the way control-connection reconnects and pool error handlers do, while debounced requests with an
+// interval of a few microseconds keep waking the flusher. Every request must be answered (a request that is never
+// answered keeps its caller - in a session: the heartbeat goroutine, and with it Session.Close - waiting forever),
+// no refresh may run after stop returned, and stop must return.
+func c17debouncerStress(c *runner.Ctx, i int) {
+	r := c.Rng
+	var runs, afterStop int64
+	var stopped int32
+	interval := time.Duration(5+r.Intn(40)) * time.Microsecond
+	work := time.Duration(r.Intn(30)) * time.Microsecond
+	d := gocql.VerifNewRefreshDebouncer(interval, func() error {
+		atomic.AddInt64(&runs, 1)
+		if atomic.LoadInt32(&stopped) == 1 {
+			atomic.AddInt64(&afterStop, 1)
+		}
+		if work > 0 {
+			time.Sleep(work)
+		}
+		return nil
+	})
+	ng := 1 + r.Intn(8)
+	per := 2000 + r.Intn(6000)
+	var wg sync.WaitGroup
+	var asked int64
+	stopDeb := make(chan struct{})
+	go func() {
+		for {
+			select {
+			case <-stopDeb:
+				return
+			default:
+			}
+			d.Debounce()
+			time.Sleep(time.Duration(r.Intn(30)) * time.Microsecond)
+		}
+	}()
+	for g := 0; g < ng; g++ {
+		wg.Add(1)
+		go func() {
+			defer wg.Done()
+			for k := 0; k < per; k++ {
+				c.Guard("refreshNow", func() { d.RefreshNow() })
+				atomic.AddInt64(&asked, 1)
+			}
+		}()
+	}
+	wg.Wait()
+	close(stopDeb)
+	c.Guard("refreshDebouncer.stop", d.Stop)
+	atomic.StoreInt32(&stopped, 1)
+	time.Sleep(2 * time.Millisecond)
+	c.Add("debouncer_refresh_requests", atomic.LoadInt64(&asked))
+	c.Add("debouncer_refreshes_run", atomic.LoadInt64(&runs))
+	c.Eval(runner.H("c17debouncer", i, ng, per), true)
+	if n := atomic.LoadInt64(&afterStop); n > 0 {
+		c.Violation("C17:refresh-after-stop", fmt.Sprintf("%d ring refreshes ran after the debouncer's stop had returned", n), nil)
+	}
+	if atomic.LoadInt64(&runs) == 0 {
+		c.Violation("C17:refresh-never-ran", fmt.Sprintf("%d immediate refresh requests were answered but the refresh function never ran", atomic.LoadInt64(&asked)), nil)
 	}
 }
